@@ -79,6 +79,15 @@ def hostile_dgram(r, state):
     return b
 
 
+def c05_wraps():
+    """h_stream.c is C05's driver; link it with whatever interpositions C05 declares"""
+    try:
+        from checks import c05
+        return list(c05.WRAPS)
+    except Exception:
+        return ["coap_socket_read", "coap_socket_write", "select"]
+
+
 def summary_of(err):
     m = re.search(r"(?m)^SUMMARY: .*$", err)
     if m:
@@ -269,7 +278,7 @@ def main(run):
     # bytes, oversize declarations, every kind of cut)
     import gen_stream
     hs = vlib.build_driver("h_stream", ["h_stream.c"], variant="asan",
-                           wraps=["coap_socket_read", "coap_socket_write"])
+                           wraps=c05_wraps())
     r = tie.rng_for(run, "c02-tcp")
     tl = [ln for ln in vlib.read_corpus("C02") if ln.startswith("tcp ")]
     sig = [bytes([0x00, 0xe4]), bytes([0x00, 0xe5]), bytes([0x00, 0xe1]), bytes([0x00, 0xe2]),
